@@ -211,7 +211,7 @@ func (w *World) runOp(op Op) {
 		if !p.exists {
 			w.createPod(p)
 		}
-		if p.sbLive {
+		if p.sbLive || p.exited {
 			return
 		}
 		p.sb++
@@ -242,9 +242,7 @@ func (w *World) runOp(op Op) {
 	case "restart-ctrl":
 		w.run.Fault("process.controller-restart")
 		w.run.S.Log("ops", "controller restart (node cache and vSwitch cache lost)")
-		old := w.ctlGen
-		w.startController()
-		close(w.stopCtl(old))
+		w.restartCtl = true
 		w.notify()
 	case "barrier":
 		w.waitOps()
@@ -320,6 +318,7 @@ func (w *World) podDown(p *podState, order string) {
 	case "del-only":
 		w.cniDel(p, uid)
 		w.setPodStatus(p, corev1.PodSucceeded, "", "")
+		p.exited = true
 		w.notify()
 	default:
 		w.cniDel(p, uid)
@@ -473,6 +472,42 @@ func flatten(node *networkv1beta1.Node) map[string]ipRec {
 	return out
 }
 
+// compactStatus renders the record in one line for the event log.
+func compactStatus(node *networkv1beta1.Node) string {
+	ids := make([]string, 0, len(node.Status.NetworkInterfaces))
+	for id := range node.Status.NetworkInterfaces {
+		ids = append(ids, id)
+	}
+	sort.Strings(ids)
+	var b strings.Builder
+	for _, id := range ids {
+		ni := node.Status.NetworkInterfaces[id]
+		fmt.Fprintf(&b, "%s[%s/%s", id, ni.NetworkInterfaceType, ni.Status)
+		for _, fam := range []map[string]*networkv1beta1.IP{ni.IPv4, ni.IPv6} {
+			ks := make([]string, 0, len(fam))
+			for k := range fam {
+				ks = append(ks, k)
+			}
+			sort.Strings(ks)
+			for _, k := range ks {
+				v := fam[k]
+				if v == nil {
+					continue
+				}
+				fmt.Fprintf(&b, " %s:%s", k, v.Status)
+				if v.Primary {
+					b.WriteString(":P")
+				}
+				if v.PodID != "" {
+					fmt.Fprintf(&b, ":%s", v.PodID)
+				}
+			}
+		}
+		b.WriteString("] ")
+	}
+	return b.String()
+}
+
 func sortedIPs(m map[string]ipRec) []string {
 	ks := make([]string, 0, len(m))
 	for k := range m {
@@ -511,6 +546,7 @@ func (w *World) onAPIWrite(op string, obj client.Object) {
 		if strings.HasPrefix(op, "status") {
 			w.statusWrites++
 			if truth := w.truthNode(); truth != nil {
+				simrt.Log("status", "%s", compactStatus(truth))
 				w.checkNodeStatus(truth)
 				w.prevNode = truth.DeepCopy()
 			}
